@@ -38,9 +38,8 @@ PROP = dict(
                "beneficiary credit saturates at 2^256-1, ether is destroyed. Stated, not findings: reimburse_caller's saturating_add "
                "cannot fire after deduct_caller (lemma); reward's `saturating_sub(basefee)` yields 0 for price < basefee, impossible "
                "after validation (default features); `price * gas` is U256 wrapping `*`, exact because gas_limit*max_fee <= balance "
-               "< 2^256 after validation; the caller nonce saturates at 2^64-1 (consequence of C02 finding eip2681_nonce_max_accepted: "
-               "such a transaction is replayable); effective price inherits C02 finding fee_sum_wraps (contracts use the computed "
-               "price effective_price_impl, equal to the EIP-1559 price whenever base_fee + priority_fee < 2^256). OBSERVATION: "
+               "< 2^256 after validation; the caller nonce saturates at 2^64-1 (unreachable since fix 52c6d0f9: such a transaction is rejected); the "
+               "effective price effective_price_impl IS the EIP-1559 price for every input since fix 7ad06213. OBSERVATION: "
                "last_frame_return hands gas back for the 'revert codes' CallTooDeep / OutOfFunds, which `output` reports as "
                "ExecutionResult::Halt (SuccessOrHalt::from): such a Halt would not use the whole gas limit; unreachable for the first "
                "frame of a validated transaction (balance >= value after the deduction; depth 0). Balances are stated for an account "
